@@ -153,6 +153,35 @@ var keepOrder = map[string]string{
 	"genutil.gen_txs":          "transactions are applied in list order by definition",
 }
 
+// genesisListSizes: number of entries of every top-level array of objects (and of every top-level JSON map
+// with object values) of every module's genesis state
+func genesisListSizes(state []byte) map[string]int {
+	out := map[string]int{}
+	var m map[string]json.RawMessage
+	if json.Unmarshal(state, &m) != nil {
+		return out
+	}
+	for mod, raw := range m {
+		var g map[string]json.RawMessage
+		if json.Unmarshal(raw, &g) != nil {
+			continue
+		}
+		for fld, v := range g {
+			var arr []json.RawMessage
+			if json.Unmarshal(v, &arr) == nil {
+				if len(arr) > 0 {
+					var probe map[string]json.RawMessage
+					if json.Unmarshal(arr[0], &probe) != nil {
+						continue
+					}
+				}
+				out[mod+"."+fld] = len(arr)
+			}
+		}
+	}
+	return out
+}
+
 // permuteGenesis permutes every top-level array of objects of every module's genesis state (arrays of
 // scalars and arrays nested inside records - coins, permission lists, token lists - are values, not record
 // lists, and keep their order). JSON object (map) order is already arbitrary for the Go decoder.
@@ -235,6 +264,7 @@ type Case struct {
 	Scheduled    []SchedRun `json:"restart_schedules"`
 	Deadlines    []time.Time `json:"-"`
 	Orders       []OrderRun `json:"permuted_genesis_imports"`
+	ListSizes    map[string]int `json:"genesis_list_sizes"`
 	Snap         [2]Snap    `json:"snapshots"`
 }
 
@@ -385,6 +415,7 @@ func runCase(idx int, seed uint64, f Features) Case {
 		cs.ExportPanicModule = "app"
 		return cs
 	}
+	cs.ListSizes = genesisListSizes(state)
 	_, p1 := newChainFromExport(c, state)
 	patched := state
 	if strings.Contains(p1, "invalid genesis version") {
@@ -551,6 +582,11 @@ func main() {
 		}
 		for _, d := range cs.Diffs {
 			dist.Inc("diff:" + d.Kind + ":" + d.Store + "/" + d.Class)
+		}
+		for k, n := range cs.ListSizes {
+			if n > dist["listmax:"+k] {
+				dist["listmax:"+k] = n
+			}
 		}
 		for _, pc := range cs.Populated {
 			dist.Inc("class:" + pc[0] + "/" + pc[1])
